@@ -67,7 +67,7 @@ def tlc_edges(ctx, module, cfg_text, label, timeout=900):
     cfg = os.path.join(d, label + '.cfg')
     with open(cfg, 'w') as f:
         f.write(cfg_text)
-    r = vlib.tlc(ctx, module, cfg, workers=1, timeout=timeout, label=label, kind='mc')
+    r = vlib.tlc(ctx, module, cfg, workers=1, timeout=timeout, label=label, kind='mc', args=['-noGenerateSpecTE'])
     if not r.clean:
         raise MachineryError('edge dump run failed (%s):\n%s' % (label, r.tail(40)))
     edges = scheck.parse_edges(r.out)
@@ -132,7 +132,8 @@ def validate(ctx, module, cfg, lines, label, chunk=3000, count=True, timeout=150
         with open(path, 'w') as f:
             for ln in chunks[ci]:
                 f.write(json.dumps(ln, separators=(',', ':')) + '\n')
-        res = vlib.tlc(ctx, module, cfg, workers=1, env={'TRACE': path}, timeout=timeout, label='%s-%d' % (label, ci), kind='trace')
+        res = vlib.tlc(ctx, module, cfg, workers=1, env={'TRACE': path}, timeout=timeout, label='%s-%d' % (label, ci), kind='trace',
+                       args=['-noGenerateSpecTE'])
         if res.clean:
             return ci, [], {}
         m = re.search(r'<<\s*"REJECTED",\s*\{(.*?)\}\s*>>', res.out, re.S)
